@@ -78,7 +78,7 @@ func (w *world) zeroOfLean(t string) []string {
 	case t == "Lib.Stream":
 		return []string{"x", "0"}
 	case t == "UrlRec":
-		return []string{"x", "x", "x", "0"}
+		return []string{"x", "x", "x", "x", "0", "x", "0"}
 	case t == "KeyRec":
 		return []string{"0"}
 	}
@@ -96,7 +96,7 @@ func (w *world) emitDriver() string {
 	var sb strings.Builder
 	sb.WriteString(header)
 	sb.WriteString("import SamlModel.Generated.Funcs\nimport SamlModel.Tok\n\nopen Go Tok\nset_option linter.unusedVariables false\n\nnamespace Gen\n\n")
-	sb.WriteString("instance : Codec UrlRec where\n  enc v := enc v.Scheme ++ enc v.Host ++ enc v.Fragment ++ enc v.queryKeys\n  dec ts := do\n    let (a, ts) ← (dec ts : Option (String × _))\n    let (b, ts) ← (dec ts : Option (String × _))\n    let (c, ts) ← (dec ts : Option (String × _))\n    let (d, ts) ← (dec ts : Option (List String × _))\n    pure ({ Scheme := a, Host := b, Fragment := c, queryKeys := d }, ts)\n\n")
+	sb.WriteString("instance : Codec UrlRec where\n  enc v := enc v.Scheme ++ enc v.Host ++ enc v.Fragment ++ enc v.RawQuery ++ enc v.ForceQuery ++ enc v.hostname ++ enc v.queryKeys\n  dec ts := do\n    let (a, ts) ← (dec ts : Option (String × _))\n    let (b, ts) ← (dec ts : Option (String × _))\n    let (c, ts) ← (dec ts : Option (String × _))\n    let (q, ts) ← (dec ts : Option (String × _))\n    let (f, ts) ← (dec ts : Option (Bool × _))\n    let (h, ts) ← (dec ts : Option (String × _))\n    let (d, ts) ← (dec ts : Option (List String × _))\n    pure ({ Scheme := a, Host := b, Fragment := c, RawQuery := q, ForceQuery := f, hostname := h, queryKeys := d }, ts)\n\n")
 	sb.WriteString("instance : Codec KeyRec where\n  enc v := enc v.isZero\n  dec ts := do\n    let (a, ts) ← (dec ts : Option (Bool × _))\n    pure ({ isZero := a }, ts)\n\n")
 	for _, si := range w.structOrder() {
 		fs := w.structFields(si)
